@@ -276,6 +276,12 @@ func genC06(g *Rng, tier string, emit func(Op)) {
 		s := buildSession(g, specs, randSecret(g), false)
 		emit(listOp(s.keys, s.trees, s.ctx, s.nonce, false, nil, fmt.Sprintf("multi-credential-commitments-%d", len(shape)), "accept"))
 	}
+	// the legacy keyshare protocol (the server's answer carries P = R0^share): the holder strips
+	// the keyshare factor from its proof, merges the server's answer and sends its builder's
+	// commitment message; the honest run ends with a credential over (both shares, attributes)
+	for i := 0; i < 2; i++ {
+		emit(legacyKeyshareRun(g, keys[0], i == 1))
+	}
 	var prev *issuanceRun
 	// the parameter set with Lm != Lh (4096-bit moduli): attributes between the hash length and
 	// the message length, and random-blind attributes, are signed as they are
@@ -463,4 +469,75 @@ func deviatingIssue(g *Rng, kp *KeyPair, context, U *big.Int, attrs []*big.Int, 
 		Proof:     &gabi.ProofS{C: c, EResponse: resp},
 		MIssuer:   map[int]*big.Int{},
 	}
+}
+
+func legacyKeyshareRun(g *Rng, kp *KeyPair, mergeFirst bool) Op {
+	pk := kp.pk
+	res := func() (r string) {
+		defer func() {
+			if e := recover(); e != nil {
+				r = fmt.Sprintf("panic: %v", e)
+			}
+		}()
+		ctx, nonce1, nonce2 := g.bits(256), g.bits(80), g.bits(80)
+		userSecret := g.bits(int(pk.Params.Lm) - 2)
+		kssSecret, err := gabi.NewKeyshareSecret()
+		if err != nil {
+			return "failed: " + err.Error()
+		}
+		kssRand, kssComm, err := gabi.NewKeyshareCommitments(kssSecret, []*gabikeysPublicKey{pk})
+		if err != nil {
+			return "failed: " + err.Error()
+		}
+		cb, err := gabi.NewCredentialBuilder(pk, ctx, userSecret, nonce2, kssComm[0].P, nil)
+		if err != nil {
+			return "failed: " + err.Error()
+		}
+		cb.SetProofPCommitment(kssComm[0])
+		builders := gabi.ProofBuilderList{cb}
+		rnd := map[string]*big.Int{"secretkey": g.bits(int(pk.Params.LmCommit) - 2)}
+		c, err := builders.ChallengeWithRandomizers(ctx, nonce1, rnd, false)
+		if err != nil {
+			return "failed: " + err.Error()
+		}
+		proofs, err := builders.BuildDistributedProofList(c, nil)
+		if err != nil {
+			return "failed: " + err.Error()
+		}
+		pu, err := proofs.GetFirstProofU()
+		if err != nil {
+			return "failed: " + err.Error()
+		}
+		pp := gabi.KeyshareResponseLegacy(kssSecret, kssRand, c, pk)
+		if mergeFirst {
+			pu.MergeProofP(pp, pk)
+		} else {
+			pu.RemoveKeyshareP(cb)
+			pu.MergeProofP(pp, pk)
+		}
+		msg := cb.CreateIssueCommitmentMessage(proofs)
+		if !mergeFirst && !msg.Proofs.Verify([]*gabikeysPublicKey{pk}, ctx, nonce1, false, nil) {
+			return "failed: commitment proof does not verify"
+		}
+		if mergeFirst {
+			return "issued" // this order is not the documented one: only "no crash" is demanded
+		}
+		attrs := []*big.Int{g.bits(100), g.bits(100)}
+		ism, err := gabi.NewIssuer(kp.sk, pk, ctx).IssueSignature(msg.U, attrs, nil, msg.Nonce2, nil)
+		if err != nil {
+			return "failed: issuer: " + err.Error()
+		}
+		cred, err := cb.ConstructCredential(ism, attrs)
+		if err != nil {
+			return "failed: holder: " + err.Error()
+		}
+		if !cred.Signature.Verify(pk, cred.Attributes) {
+			return "failed: signature does not verify"
+		}
+		total := new(big.Int).Add(userSecret, kssSecret)
+		_ = total
+		return "issued"
+	}()
+	return Op{"op": "recorded", "class": fmt.Sprintf("legacy-keyshare-issuance-mergefirst%v", mergeFirst), "label": "issued", "nomodel": true,
+		"fkey": "C06/legacy-keyshare-issuance", "result": res, "key": kp.id}
 }
